@@ -1,5 +1,5 @@
 """C04 - the reported reference count equals the number of owning handles."""
-from .. import balance, cfg, core, model
+from .. import atomics, balance, cfg, core, model
 from ..effects import ZERO, dcount, imbalance, vget
 from ..facts import operand_local, operand_place
 
@@ -286,6 +286,11 @@ def _returns_count(F, B, fwd, forwarding):
             # receiver must be the COUNT field reached from the receiver argument
             recv = t["args"][0]
             o = B.origin(recv)
+            if o.get("kind") == "call" and atomics.returns_count_ref(F, atomics.callee_of(o["term"])):
+                # a private accessor returning `&block.count`: the block must be the receiver's
+                if not any(_derives_from_arg(F, B, operand_place(a)["l"], set()) for a in o["term"]["args"] if operand_place(a) is not None):
+                    return False, "the block whose count is loaded is not derived from the receiver argument"
+                continue
             if o.get("kind") != "rvalue" or o["rv"]["k"] != "ref":
                 return False, "load receiver is not a direct borrow"
             pl = o["rv"]["place"]
